@@ -26,7 +26,7 @@ class Abort(BaseException):  # like KeyboardInterrupt: not an Exception subclass
     pass
 
 
-def mksys(variant, V, R, phases, bpc=None):
+def mksys(variant, V, R, phases, bpc=None, swapped=False):
     """variant A: battery B is the only source; variant B: two sources, the battery is the second one; variant C: a 1.82 W load directly on the battery."""
     if variant == "C":
         s = System("t", Source("B", vo=V, rs=R))
@@ -44,8 +44,8 @@ def mksys(variant, V, R, phases, bpc=None):
         s.add_comp("RA", comp=ILoad("LA", ii=0.02))
         s.add_source(Source("B", vo=V, rs=R))
     s.add_comp("B", comp=Converter("C", vo=1.8, eff=0.9, iq=1e-4, iis=2e-5))
-    s.add_comp("C", comp=PLoad("L", pwr=0.1, pwrs=1e-3))
-    s.add_comp("B", comp=RLoad("R", rs=200.0))
+    s.add_comp("C" if not swapped else "B", comp=PLoad("L", pwr=0.1, pwrs=1e-3))     # swapped: the two loads have changed places
+    s.add_comp("B" if not swapped else "C", comp=RLoad("R", rs=200.0))
     if phases:
         names = list(phases)
         s.set_sys_phases(dict(phases))
@@ -57,8 +57,8 @@ def mksys(variant, V, R, phases, bpc=None):
     return s
 
 
-def ibatt(variant, V, R, phases, ph, bpc=None):
-    s = mksys(variant, V, R, phases, bpc)
+def ibatt(variant, V, R, phases, ph, bpc=None, swapped=False):
+    s = mksys(variant, V, R, phases, bpc, swapped=swapped)
     df, _ = quiet_call(s.solve, phase=ph) if ph else quiet_call(s.solve)
     return float(df[df.Component == "B"]["Iout (A)"].iloc[0])
 
@@ -67,8 +67,8 @@ def run_seq(variant, phname, seq, cutoff=3.0, cap0=0.01, V0=3.7, R0=0.1, fault=N
     phases = PHASES[phname]
     s = mksys(variant, vdecl, 0.3, phases, bpc)   # vdecl: the voltage the battery Source was DECLARED with (0.0 = a placeholder; the model supplies the real one)
     if pre_edit:
-        # an analysis, then edits that keep the component count (the resistor R is deleted and added again under the same parent with the same
-        # parameters: the structure is the one mksys() builds, only the object's history differs), then batt_life() without any analysis in between
+        # an analysis, then edits that keep the component count but change the wiring (the two loads change places; freed node indices are
+        # re-used), then batt_life() without any analysis in between: it must deplete the battery with the currents of the EDITED structure
         try:
             quiet_call(s.solve)
         except (RuntimeError, ValueError):
@@ -76,8 +76,8 @@ def run_seq(variant, phname, seq, cutoff=3.0, cap0=0.01, V0=3.7, R0=0.1, fault=N
         s.params()
         s.del_comp("L")
         s.del_comp("R")
-        s.add_comp("B", comp=RLoad("R", rs=200.0))
-        s.add_comp("C", comp=PLoad("L", pwr=0.1, pwrs=1e-3))
+        s.add_comp("C", comp=RLoad("R", rs=200.0))
+        s.add_comp("B", comp=PLoad("L", pwr=0.1, pwrs=1e-3))
         if phases:
             names = list(phases)
             s.set_comp_phases("L", {names[0]: 0.2, names[-1]: 0.05})
@@ -176,7 +176,7 @@ def check_case(case):
     pl = list(phases) if phases else [None]
     for j, (t, i, V, R) in enumerate(calls):
         ph = pl[j % len(pl)]
-        ei = ibatt(variant, V, R, phases, ph, bpc)
+        ei = ibatt(variant, V, R, phases, ph, bpc, swapped=case.get("pre_edit", False))
         if not close(i, ei, 1e-4, 1e-9):  # batt_life and solve() use different default tolerances internally
             res.v(("C18.current", phname), "call %d (phase %s): got %r, fresh system with V=%r R=%r draws %r" % (j, ph, i, V, R, ei))
         et = phases[ph] if phases else 3.6 * cap0 / ei
